@@ -347,7 +347,7 @@ func c12Exec(c c12Case, st *lab.Stats) *lab.Fail {
 	fd0 := 0
 	if c.Late > 0 && c.Order != "before-run" && c.Order != "concurrent-start" {
 		// a finalizer must not close what the server forgot to close
-		defer debug.SetGCPercent(debug.SetGCPercent(-1))
+		defer func(old int, lim int64) { debug.SetGCPercent(old); debug.SetMemoryLimit(lim) }(debug.SetGCPercent(-1), debug.SetMemoryLimit(768<<20))
 		if len(c.Conns) == 0 {
 			fd0 = socketFDs() - 1 // the server's listening socket will be gone
 		}
